@@ -819,7 +819,7 @@ NumColl(u) ==
   \cup {X2(f, ArrOf(t), x) : f \in {"contains", "append"}, t \in NumT, x \in Items}
   \cup {X2("extend", ArrOf(t), ArrOf(w)) : t \in NumT, w \in NumT} \cup {X2("extend", ArrOf(t), Py(VList(<<VInt("one")>>))) : t \in NumT}
   \cup {Idx(ArrOf(t), x) : t \in {I32, F64}, x \in Items}
-  \cup {X2(f, DictOf(k, F64), x) : f \in {"get", "contains"}, k \in NumT, x \in Items} \cup {Idx(DictOf(k, TS), x) : k \in NumT, x \in Items}
+  \cup {X2(f, DictOf(k, F64), x) : f \in {"get", "contains"}, k \in NumT, x \in Items} \cup {Idx(DictOf(k, I64), x) : k \in NumT, x \in Items}
   \cup {Get2(DictOf(k, v), ItemOf(k), x) : k \in {I32, I64}, v \in NumT, x \in Items}
   \cup {U1(f, DictOf(k, v)) : f \in {"key_set", "keys", "values", "items"}, k \in {I32, F64}, v \in {I64, F32}}
   \cup {Mk(f, <<a, b>>) : f \in {"mkset", "mkarray"}, a \in Items, b \in Items}
